@@ -210,6 +210,9 @@ def join_sib(ctx, rule="JOIN-SIB"):
     if not pad:
         pad = [t for b, t in f.calls() if (t.get("callee") or "").endswith("iter::repeat_n") and "ValueRef::Null" in S.val(t["args"][0]) and arm_at(b) == "Left"]
     if not pad:
+        pad = [t for b, t in f.calls() if (t.get("callee") or "").endswith("Iterator::take") and "iter::repeat" in S.val(t["args"][0]) and arm_at(b) == "Left" and
+               any((tt.get("callee") or "").endswith("iter::repeat") and "ValueRef::Null" in S.val(tt["args"][0]) for bb, tt in f.calls())]
+    if not pad:
         # a loop over the right table's columns pushing ValueRef::Null
         lps = cfg.natural_loops(f)
         for b, t in f.calls():
@@ -258,6 +261,13 @@ def join_shape(ctx, rule="JOIN-SHAPE"):
         for c in cs:
             if c[1].endswith("iter::repeat_n") and arm_of(c[0]) == arm and "ValueRef::Null" in c[2][0] and "Table::columns(" in c[2][1]:
                 pad.append((c[0], c[1], [c[2][1], "agg{}"], c[3]))
+        # ... or as iter::repeat(ValueRef::Null).take(right.columns().len())
+        for c in cs:
+            if c[1].endswith("Iterator::take") and arm_of(c[0]) == arm and "iter::repeat" in c[2][0] and "Table::columns(" in c[2][1]:
+                mr = re.fullmatch(r"call@(\d+):std::iter::repeat", c[2][0])
+                rep = S.val(f.blocks[int(mr.group(1))]["term"]["args"][0]) if mr else c[2][0]
+                if "ValueRef::Null" in rep:
+                    pad.append((c[0], c[1], [c[2][1], "agg{}"], c[3]))
         # ... or as a loop over right.columns() that pushes ValueRef::Null onto the copied left row
         for c in cs:
             if c[1].endswith("Iterator>::next") and arm_of(c[0]) == arm and "Table::columns(" in c[2][0]:
@@ -319,6 +329,14 @@ def join_shape(ctx, rule="JOIN-SHAPE"):
                     f_blocks = [b for b, v in sets if v == 0]
                     okf = len(t_blocks) == 1 and len(f_blocks) == 1 and any(tr is True and "Value::to_bool" in e for (e, tr, g) in S.bool_facts_at(t_blocks[0])) \
                         and f_blocks[0] in outer and f_blocks[0] not in inner and pp[0][0] in outer and pp[0][0] not in inner
+            if not okf and len(pp) == 1 and push:
+                # `let before = rows.len(); <inner loop>; if rows.len() == before { pad }`: no row was pushed for this left row
+                rows_v = push[0][2][0].lstrip("&")
+                lens = [c for c in cs if c[1].endswith("Vec::<T, A>::len") and c[2][0].lstrip("&") == rows_v and arm_of(c[0]) == "Left"]
+                eqf = [(e, tr) for (e, tr, g) in S.bool_facts_at(pp[0][0]) if isinstance(tr, bool) and re.fullmatch(r"\(std::vec::Vec::<T, A>::len\(&?%s\) (Eq|Ne) std::vec::Vec::<T, A>::len\(&?%s\)\)" % (re.escape(rows_v), re.escape(rows_v)), e)]
+                before = [c for c in lens if c[0] in outer and c[0] not in inner and any(c[0] in dom[ib] for ib in inner)]
+                after = [c for c in lens if c[0] in outer and c[0] not in inner and not any(c[0] in dom[ib] for ib in inner)]
+                okf = len(eqf) == 1 and ((" Eq " in eqf[0][0]) == eqf[0][1]) and len(before) == 1 and len(after) == 1 and pp[0][0] in outer and pp[0][0] not in inner
             ctx.check(okf, rule, "Left: padded row exactly when no right row matched", "", "Join::Left does not emit the null-padded row exactly when no right row matched (per-left-row flag reset, set on match, tested after the inner loop)",
                       f.loc(), fn=f.name, key="%s|Left|flag" % rule)
     # Select::exec: projection depends on the requested columns only; filter keeps to_bool(eval)
@@ -329,7 +347,8 @@ def join_shape(ctx, rule="JOIN-SHAPE"):
     extra = []
     if ok:
         facts = [(e, tr) for (e, tr, gb) in Sg.bool_facts_at(tn[0][0]) if isinstance(tr, bool)]
-        extra = [(e, tr) for (e, tr) in facts if not (tr is False and re.fullmatch(r"std::vec::Vec::<T, A>::is_empty\(&call@\d+:std::vec::Vec::<T>::with_capacity\)", e))]
+        extra = [(e, tr) for (e, tr) in facts if not (tr is False and re.fullmatch(
+            r"std::vec::Vec::<T, A>::is_empty\(&(call@\d+:std::vec::Vec::<T>::with_capacity|call@\d+:<std::result::Result<T, E> as std::ops::Try>::branch@Continue\.0|p1\.column_names)\)", e))]
         ok = len(facts) - len(extra) == 1 and not extra
     ctx.check(ok, rule, "Select: projection depends on the requested column list alone", "", "the projection step of Select::exec is additionally conditioned on %s: a result restricted to "
               "the requested columns is then not produced in those cases (e.g. when no row matched)" % [(e[:60], tr) for e, tr in extra], g.loc(), fn=g.name, key="%s|Select|projection" % rule)
@@ -438,6 +457,11 @@ def join_more(ctx, rule="JOIN-SHAPE"):
     ok = len(cl) == 1 and len(fm) == 1 and has_fact(Sh, cl[0][0], r"^core::str::<impl str>::is_empty\(&\*p2\)$", True) and has_fact(Sh, fm[0][0], r"^core::str::<impl str>::is_empty\(&\*p2\)$", False) \
         and len(Sh.bool_facts_at(cl[0][0])) == 1 and nd == ["&p2", "&*p1.name"]
     piece = [c[2][0] for c in hs if c[1].endswith("Arguments::<'a>::new")]
+    if not ok and len(cl) == 1 and len(fm) == 1 and nd == ["&p2", "&*p1.name"] and has_fact(Sh, fm[0][0], r"^core::str::<impl str>::is_empty\(&\*p2\)$", False):
+        # `let mut c = self.clone(); if !prefix.is_empty() { c.name = format!(..) }; c`: one clone, and the only field it overwrites is the name, under the non-empty test
+        stores = [(bl["id"], [e.get("n") for e in st["lhs"]["p"] if isinstance(e, dict) and "f" in e]) for bl in h.blocks if not bl["cleanup"] for st in bl["stmts"]
+                  if st["lhs"]["p"] and "column::Column" in h.locals[st["lhs"]["l"]]]
+        ok = bool(stores) and all(flds == ["name"] and has_fact(Sh, b_, r"^core::str::<impl str>::is_empty\(&\*p2\)$", False) for (b_, flds) in stores)
     ok = ok and len(piece) == 1 and "\\xc0\\x01.\\xc0\\x00" in piece[0]
     ctx.check(ok, R3, "prefix applied iff non-empty, as prefix.name", "", "with_name_prefix does not return self.clone() exactly for an empty prefix and \"{prefix}.{name}\" otherwise", h.loc(), fn=h.name, key=R3)
     agg = [s for bl in h.blocks if not bl["cleanup"] for s in bl["stmts"] if s["rhs"]["rv"] == "agg" and (s["rhs"].get("adt") or "").endswith("column::Column")]
